@@ -108,6 +108,15 @@ def revolve(
     # 2D points around the revolution
     points = np.column_stack((np.cos(theta), np.sin(theta)))
 
+    if (
+        cap
+        and not closed
+        and len(linestring) > 2
+        and not np.array_equal(linestring[0], linestring[-1])
+    ):
+        # the cap closes the profile so the revolved surface has to as well
+        linestring = np.vstack((linestring, linestring[:1]))
+
     # how many points per slice
     per = len(linestring)
 
